@@ -77,6 +77,7 @@ type Stats struct {
 	SolverTime     time.Duration
 	Steps          int64
 	Assumes        int64
+	WorldRebuilds  int64 // paths that wrote into setup state (globals); the world was rebuilt after each
 }
 
 type Sample struct {
@@ -188,6 +189,9 @@ type Worker struct {
 	lockHook    func(what string, mu *Value, fr *frame)
 	curFrame    *frame
 	mon         *monitor
+	frozen      map[*Value]bool // cells of the setup heap (globals and everything reachable)
+	frozenMaps  map[*Map]bool
+	dirty       bool
 	preemptions int
 	fixed       []Draw
 	fixedPos    int
@@ -260,7 +264,30 @@ func (w *Worker) initWorld() (err error) {
 		w.call(nil, 0, w.E.Setup, nil)
 	}
 	w.inSetup = false
+	// remember the setup heap: a path that writes into it (e.g. mutated code
+	// changing a registry entry) must not leak into the next path
+	fm := &monitor{names: map[*Value]string{}, maps: map[*Map]string{}}
+	for _, g := range w.globals {
+		w.walkShared(fm, g, "g", 0)
+	}
+	w.frozen = make(map[*Value]bool, len(fm.names))
+	for c := range fm.names {
+		w.frozen[c] = true
+	}
+	w.frozenMaps = make(map[*Map]bool, len(fm.maps))
+	for m := range fm.maps {
+		w.frozenMaps[m] = true
+	}
+	w.dirty = false
 	return nil
+}
+
+// rebuildWorld re-runs the initialisers and Setup on a fresh heap.
+func (w *Worker) rebuildWorld() error {
+	w.globals = map[*ssa.Global]*Value{}
+	w.initedPkgs = map[*ssa.Package]bool{}
+	w.frozen, w.frozenMaps = nil, nil
+	return w.initWorld()
 }
 
 func (w *Worker) resetPath(prefix []Decision) {
@@ -865,6 +892,12 @@ func (w *Worker) runPath(prefix []Decision) {
 	w.E.mu.Unlock()
 	if w.E.Cfg.Trace {
 		fmt.Fprintf(os.Stderr, "[w%d] path %s -> %s (%d steps)\n", w.id, decString(w.taken), outcome, w.steps)
+	}
+	if w.dirty {
+		w.E.count(func(s *Stats) { s.WorldRebuilds++ })
+		if err := w.rebuildWorld(); err != nil {
+			w.E.addProblem("rebuilding the setup state failed: " + err.Error())
+		}
 	}
 	// bound the term pool
 	if w.P.next > 2_000_000 {
